@@ -8,8 +8,9 @@ for d in sorted(os.listdir(os.path.join(V, "seeded"))):
     if not os.path.exists(mp):
         continue
     m = json.load(open(mp))
-    rows.append("| %s | %s | %s | %s |" % (d, m.get("change", "").replace("|", "/"), m.get("result", "").replace("|", "/"),
+    rows.append("| %s | %s | %s | %s | %s |" % (d, m.get("change", "").replace("|", "/"), m.get("result", "").replace("|", "/"),
+                                          "yes" if m.get("proof_side_breaks") else "-",
                                           "yes: " + m.get("strengthened", "") if m.get("missed_at_first") else "no"))
-print("| id | change | caught by | missed at first / strengthened |")
-print("|----|--------|-----------|-------------------------------|")
+print("| id | change | caught by | proof obligation breaks | missed at first / strengthened |")
+print("|----|--------|-----------|-------------------------|-------------------------------|")
 print("\n".join(rows))
